@@ -1,0 +1,184 @@
+//! verification hooks, compiled only with `--cfg may_verif`
+//!
+//! With no harness installed every hook is a no-op that runs the wrapped
+//! operation directly. A harness installs a table of function pointers with
+//! [`install`]; every hooked shared-memory operation then calls `before` (a
+//! schedule point), performs the operation and calls `after` with its result.
+use std::cell::{Cell, RefCell};
+use std::panic::Location;
+use std::sync::atomic::{AtomicPtr, Ordering};
+use std::time::Duration;
+
+/// one hooked operation
+pub struct Ev {
+    /// construction site of the object the operation is performed on
+    pub site: &'static Location<'static>,
+    /// address of the object
+    pub addr: usize,
+    pub op: &'static str,
+    pub arg: u64,
+    pub arg2: u64,
+    /// memory ordering (see [`ord_code`]), 0 when not applicable
+    pub ord: u8,
+}
+
+pub struct Hooks {
+    /// schedule point before the operation; returns when the caller may perform it
+    pub before: fn(&Ev),
+    /// after the operation, with its result; the flag is 1/0 for a successful/failed
+    /// compare-exchange (the result is then the value found) and 2 otherwise
+    pub after: fn(&Ev, u64, u8),
+    /// virtual thread park: `Some(true)` = woken by a token, `Some(false)` = timed out,
+    /// `None` = not handled, use the real implementation
+    pub park: fn(usize, Option<Duration>) -> Option<bool>,
+    /// virtual thread unpark: `true` = handled
+    pub unpark: fn(usize) -> bool,
+    /// a plain event that wraps no operation
+    pub note: fn(&'static str, &str),
+    /// virtual clock: `Some(ns)` overrides the monotonic clock
+    pub now: fn() -> Option<u64>,
+}
+
+thread_local! {
+    static ACTORS: RefCell<Vec<String>> = const { RefCell::new(Vec::new()) };
+    static SUPPRESS: Cell<u32> = const { Cell::new(0) };
+}
+
+pub fn push_actor(a: String) {
+    ACTORS.with(|v| v.borrow_mut().push(a));
+}
+pub fn pop_actor() {
+    ACTORS.with(|v| {
+        v.borrow_mut().pop();
+    });
+}
+pub fn current_actor() -> Option<String> {
+    ACTORS.with(|v| v.borrow().last().cloned())
+}
+pub fn actor_depth() -> usize {
+    ACTORS.with(|v| v.borrow().len())
+}
+
+/// a plain event (no operation to wrap)
+pub fn note(kind: &'static str, what: &str) {
+    if let Some(h) = hooks() {
+        if !suppressed() {
+            (h.note)(kind, what);
+        }
+    }
+}
+
+#[inline]
+pub fn suppressed() -> bool {
+    SUPPRESS.with(|s| s.get() != 0)
+}
+
+/// run `f` with all nested hooks switched off on this thread (used by wrappers
+/// that report one abstract operation instead of its atomic steps)
+pub fn quiet<R>(f: impl FnOnce() -> R) -> R {
+    struct G;
+    impl Drop for G {
+        fn drop(&mut self) {
+            SUPPRESS.with(|s| s.set(s.get() - 1));
+        }
+    }
+    SUPPRESS.with(|s| s.set(s.get() + 1));
+    let _g = G;
+    f()
+}
+
+static HOOKS: AtomicPtr<Hooks> = AtomicPtr::new(std::ptr::null_mut());
+
+pub fn install(h: &'static Hooks) {
+    HOOKS.store(h as *const _ as *mut _, Ordering::SeqCst);
+}
+
+#[inline]
+pub fn hooks() -> Option<&'static Hooks> {
+    let p = HOOKS.load(Ordering::Acquire);
+    if p.is_null() {
+        None
+    } else {
+        Some(unsafe { &*p })
+    }
+}
+
+pub const fn ord_code(o: Ordering) -> u8 {
+    match o {
+        Ordering::Relaxed => 1,
+        Ordering::Release => 2,
+        Ordering::Acquire => 3,
+        Ordering::AcqRel => 4,
+        Ordering::SeqCst => 5,
+        _ => 0,
+    }
+}
+
+/// wrap one shared-memory operation
+#[inline]
+pub fn op(
+    site: &'static Location<'static>,
+    addr: usize,
+    op: &'static str,
+    arg: u64,
+    arg2: u64,
+    ord: u8,
+    f: impl FnOnce() -> u64,
+) -> u64 {
+    match hooks() {
+        Some(h) if !suppressed() => {
+            let ev = Ev {
+                site,
+                addr,
+                op,
+                arg,
+                arg2,
+                ord,
+            };
+            (h.before)(&ev);
+            let r = f();
+            (h.after)(&ev, r, 2);
+            r
+        }
+        _ => f(),
+    }
+}
+
+/// wrap one compare-exchange
+#[inline]
+pub fn op_cas(
+    site: &'static Location<'static>,
+    addr: usize,
+    op: &'static str,
+    cur: u64,
+    new: u64,
+    ord: u8,
+    f: impl FnOnce() -> Result<usize, usize>,
+) -> Result<usize, usize> {
+    match hooks() {
+        Some(h) if !suppressed() => {
+            let ev = Ev {
+                site,
+                addr,
+                op,
+                arg: cur,
+                arg2: new,
+                ord,
+            };
+            (h.before)(&ev);
+            let r = f();
+            match r {
+                Ok(x) => (h.after)(&ev, x as u64, 1),
+                Err(x) => (h.after)(&ev, x as u64, 0),
+            }
+            r
+        }
+        _ => f(),
+    }
+}
+
+/// virtual monotonic clock in ns, if the harness provides one
+#[inline]
+pub fn now() -> Option<u64> {
+    hooks().and_then(|h| (h.now)())
+}
